@@ -15,6 +15,51 @@ from ..core import run_cases
 from .. import tlc
 
 
+def random_graphs(seed, tier):
+    import random
+
+    rng = random.Random(1000 + seed)
+    out = []
+
+    def masks(n, root=None):
+        ms = []
+        for _ in range(4):
+            m = sorted(rng.sample(range(n), rng.randint(2, n - 1)))
+            if root is not None and rng.random() < 0.8 and root not in m:
+                m = sorted(m + [root])
+            ms.append(m)
+        return ms
+
+    sizes_u = [6, 7, 9, 12, 16, 24] + ([32, 40] if tier == "thorough" else [])
+    sizes_d = [5, 6, 8, 12] + ([16, 24] if tier == "thorough" else [])
+    sizes_t = [6, 9, 14, 20, 40]
+    reps = 3 if tier == "quick" else 10
+    for n in sizes_u:
+        for k in range(reps):
+            p = rng.choice((1.2, 2.0, 3.5)) / n
+            e = [[a, b] for a in range(n) for b in range(a + 1, n) if rng.random() < p]
+            if k == 0:      # a connected one: random spanning tree + extras
+                e = sorted({tuple(sorted((v, rng.randrange(v)))) for v in range(1, n)} | {tuple(x) for x in e})
+                e = [list(x) for x in e]
+            out.append({"kind": "ug", "n": n, "edges": e, "masks": masks(n), "root": 0, "par": []})
+    for n in sizes_d:
+        for k in range(reps):
+            p = rng.choice((1.0, 2.0)) / n
+            e = [[a, b] for a in range(n) for b in range(n) if a != b and rng.random() < p]
+            out.append({"kind": "dg", "n": n, "edges": e, "masks": masks(n), "root": 0, "par": []})
+    for n in sizes_t:
+        for k in range(reps):
+            order = list(range(n))
+            rng.shuffle(order)
+            root = order[0]
+            par = [0] * n
+            par[root] = root
+            for i in range(1, n):
+                par[order[i]] = order[rng.randrange(i)]
+            out.append({"kind": "tree", "n": n, "edges": [], "masks": masks(n, root), "root": root, "par": par})
+    return out
+
+
 def run(chk, tier, seed, replay):
     chk.rule = ("case = one graph (all undirected graphs on <= NU vertices, all directed graphs on <= ND vertices, all rooted "
                 "trees on <= 5 vertices) with the declarative answer to every query, every vertex mask and every root; "
@@ -27,5 +72,10 @@ def run(chk, tier, seed, replay):
             chk.mismatch(case, {"what": w, **detail}, kind=kind, what=w)
         return
     with tlc.Scratch("c14") as s:
+        # random graphs, trees and weighted graphs above the exhaustive scope (drawn here, answered by the same definitions)
+        rnd = s.path("random_graphs.json")
+        json.dump(random_graphs(seed, tier), open(rnd, "w"))
+        run_cases(chk, "random", "Graphs", "MC_Graphs_rnd.cfg", s, ad.run_case, env={"TRACE_FILE": rnd},
+                  key=lambda o: json.dumps([o["kind"], o["n"], o["edges"], o.get("root")]), parallel=True, workers=16)
         run_cases(chk, "graphs", "Graphs", "MC_Graphs_quick.cfg" if tier == "quick" else "MC_Graphs_thorough.cfg", s, ad.run_case,
                   key=lambda o: json.dumps([o["kind"], o["n"], o["edges"], o.get("root")]), parallel=True, workers=16)
